@@ -245,6 +245,21 @@ def run_case(ctx, case):
     if got != want or tuple(dec.netqasm_version) != tuple(case["version"]) or dec.app_id != case["app_id"]:
         first = next((f"{w} read as {g}" for g, w in zip(got, want) if g != w), "header/length")
         ctx.fail(case, f"{flav}: reference bytes are decoded differently by the repo: {first}")
+    elif case["kind"] in ("header", "instr") or not case["instrs"]:
+        # the same (pre-compiled) Subroutine object is encoded, addressed to another application (instantiate() / the app_id
+        # setter), and encoded again: the header carries the application it is addressed to *now*
+        for how, app2 in (("instantiate", case["app_id"] ^ 0x0101), ("setter", case["app_id"] ^ 0x8002)):
+            if how == "instantiate":
+                sub.instantiate(app2, {})
+            else:
+                sub.app_id = app2
+            ctx.count("reencodings_after_readdressing")
+            ref2 = isa.encode_subroutine(flav, case["version"], app2, case["instrs"])
+            raw2 = bytes(sub)
+            if raw2 != ref2:
+                ctx.fail(case, f"{flav}: subroutine encoded for app {case['app_id']}, then addressed to app {app2} via {how}: "
+                               f"the bytes start {raw2[:4].hex()}, the layout says {ref2[:4].hex()}")
+                break
     elif case["kind"] == "sequence" and case["instrs"]:
         # the wire bytes of a Subroutine object are those of its *current* content: update operands / the list in place
         # after the first encoding and compare with the reference encoding of the updated program
@@ -252,7 +267,7 @@ def run_case(ctx, case):
         instrs2 = [[m, codec.rand_values(rng, isa.TABLE[flav][m][1])] for m, _ in case["instrs"]]
         for j_, (obj, (m, v)) in enumerate(zip(sub.instructions, instrs2)):
             try:
-                codec.edit_in_place(obj, codec.mk_instr(fobj, flav, m, v), named=j_ % 2 == 0)
+                codec.edit_in_place(obj, codec.mk_instr(fobj, flav, m, v), named=j_ % 2 == 0, nested=j_ % 4 == 1)
             except AssertionError as e:
                 ctx.fail(case, f"{flav}: instruction {j_} ({m}): a named operand accessor does not write the field it reads: {e}")
                 return ctx.case(case, nontrivial)
